@@ -1,0 +1,21 @@
+//go:build verif
+
+// Contracts for the exovc verifier (/verif). Comment-only: with the tag off this file is not part
+// of the package, with the tag on it declares nothing.
+package keeper
+
+// C19: gas refund arithmetic
+//@ func GasToRefund
+//@   requires refundQuotient != 0
+//@   ensures[C19.gtr.spec] result == imin(availableRefund, gasConsumed / refundQuotient)
+//@   ensures[C19.gtr.bound] result <= availableRefund && result <= gasConsumed
+
+// unused gas is refunded at the purchase price from the fee collector to the sender; zero refund moves nothing,
+// a negative refund is rejected, and a failed refund changes nothing
+//@ func (*Keeper).RefundGas
+//@   modifies store(ctx, "bank")
+//@   ensures[C19.rg.zero]   leftoverGas * val(msg_gasprice(msg)) == 0 ==> err == nil && state(ctx) == old(state(ctx))
+//@   ensures[C19.rg.neg]    leftoverGas * val(msg_gasprice(msg)) < 0 ==> err != nil && state(ctx) == old(state(ctx))
+//@   ensures[C19.rg.atomic] err != nil ==> state(ctx) == old(state(ctx))
+//@   before[C19.rg.payer]   SendCoinsFromModuleToAccount requires arg_senderModule == "fee_collector" && arg_recipientAddr == addrbytes(msg_from(msg)) &&
+//@        leftoverGas * val(msg_gasprice(msg)) > 0
